@@ -18,6 +18,41 @@ theorem truth_ofTV (t : TV) : truth (ofTV t) = t := by
   | none => rfl
   | some b => cases b <;> rfl
 
+theorem coreBin_not_div {op : Op} (h : coreBin op = true) : coreDiv op = false := by
+  cases op <;> simp [coreBin] at h <;> rfl
+
+theorem coreList_not_div {op : Op} (h : coreList op = true) : coreDiv op = false := by
+  cases op <;> simp [coreList] at h <;> rfl
+
+theorem evalCore_binary (env : String → Val) (d : Dialect) (op : Op) (l r : SaExpr) (n : Option Op)
+    (esc : Option String) (ty : Ty) (h : coreDiv op = false) :
+    evalCore env d (.binary op l r n esc ty) = binVal op (evalCore env d l) (evalCore env d r) := by
+  cases op <;> simp [coreDiv] at h <;> rfl
+
+theorem evalCore_div (env : String → Val) (d : Dialect) (op : Op) (l r : SaExpr) (n : Option Op)
+    (esc : Option String) (ty : Ty) (h : coreDiv op = true) :
+    evalCore env d (.binary op l r n esc ty) =
+      divVal d op (SaExpr.tyOf l) (SaExpr.tyOf r) (evalCore env d l) (evalCore env d r) := by
+  cases op <;> simp [coreDiv] at h <;> rfl
+
+theorem evalG_truedivG (env : String → Val) (d : Dialect) (lt rt : Ty) (L R : G) (a b : Val)
+    (hL : evalG (stdI env) L = .s a) (hR : evalG (stdI env) R = .s b) :
+    evalG (stdI env) (truedivG d L R) = .s (divVal d .truediv lt rt a b) := by
+  unfold truedivG divVal
+  split
+  · simp only [evalG, hL, hR]; rfl
+  · split
+    · simp only [evalG, hL, hR]; rfl
+    · simp only [evalG, hL, hR]; rfl
+
+theorem evalG_floordivG (env : String → Val) (d : Dialect) (lt rt : Ty) (L R : G) (a b : Val)
+    (hL : evalG (stdI env) L = .s a) (hR : evalG (stdI env) R = .s b) :
+    evalG (stdI env) (floordivG d lt rt L R) = .s (divVal d .floordiv lt rt a b) := by
+  unfold floordivG divVal
+  split
+  · simp only [evalG, hL, hR]; rfl
+  · simp only [evalG, hL, hR]; rfl
+
 theorem stdInf_core (op : Op) (h : coreBin op = true ∨ coreList op = true) (a b : Val) :
     stdInf (symOf op) (.s a) (.s b) = .s (binVal op a b) := by
   rcases h with h | h
@@ -184,11 +219,16 @@ theorem evalG_render (env : String → Val) (d : Dialect) :
     rfl
   | .binary op l r n esc ty, hc => by
     simp only [Core, Bool.and_eq_true] at hc
-    obtain ⟨txt, heq⟩ := render_coreBin d true op l r n esc ty hc.1.1.1
-    rw [heq]
-    show stdInf (symOf op) (evalG (stdI env) (render d true l)) (evalG (stdI env) (render d true r)) = _
-    rw [evalG_render env d l hc.1.2, evalG_render env d r hc.2, stdInf_core op (Or.inl hc.1.1.1)]
-    rfl
+    rcases coreBinD_cases hc.1.1.1 with hop | hdiv
+    · obtain ⟨txt, heq⟩ := render_coreBin d true op l r n esc ty hop
+      rw [heq]
+      show stdInf (symOf op) (evalG (stdI env) (render d true l)) (evalG (stdI env) (render d true r)) = _
+      rw [evalG_render env d l hc.1.2, evalG_render env d r hc.2, stdInf_core op (Or.inl hop),
+        evalCore_binary env d op l r n esc ty (coreBin_not_div hop)]
+    · rw [evalCore_div env d op l r n esc ty hdiv]
+      cases op <;> simp [coreDiv] at hdiv
+      · exact evalG_truedivG env d _ _ _ _ _ _ (evalG_render env d l hc.1.2) (evalG_render env d r hc.2)
+      · exact evalG_floordivG env d _ _ _ _ _ _ (evalG_render env d l hc.1.2) (evalG_render env d r hc.2)
   | .unary op e ty, hc => by
     simp only [Core, Bool.and_eq_true] at hc
     rw [render_unary]
@@ -312,11 +352,24 @@ theorem selfGroup_eval (env : String → Val) (d : Dialect) (a : Op) (x : SaExpr
       · exact Or.inr h
     cases x <;> first | rfl | (rcases hcol with h' | h' <;> simp_all [NonAtom]) | (simp [Core] at hc)
 
+theorem tyOf_selfGroup (a : Op) (x : SaExpr) (hb : boolCtx a = false) :
+    tyOf (selfGroup (some a) x) = tyOf x := by
+  unfold selfGroup
+  by_cases hg : wouldGroup (some a) x = true
+  · simp only [hg, if_true]; rfl
+  · have hg' : wouldGroup (some a) x = false := by simpa using hg
+    simp only [hg', Bool.false_eq_true, if_false]
+    have hcol : columnSelfGroup (some a) x = x := by
+      simp only [boolCtx, Bool.or_eq_false_iff, decide_eq_false_iff_not] at hb
+      simp [columnSelfGroup, hb.1.1, hb.1.2, hb.2]
+    cases x <;> first | rfl | (show tyOf (columnSelfGroup _ _) = _; rw [hcol])
+
 theorem mkBinary_eval (env : String → Val) (d : Dialect) (l r : SaExpr) (op : Op) (ty : Ty) (n : Option Op)
     (hop : coreBin op = true) (hcl : Core l = true) (hcr : Core r = true) :
     evalCore env d (mkBinary l r op ty n none) = binVal op (evalCore env d l) (evalCore env d r) := by
-  simp only [mkBinary, evalCore]
-  rw [selfGroup_eval env d op l hcl (Or.inl (coreBin_not_boolCtx hop)),
+  simp only [mkBinary]
+  rw [evalCore_binary env d op _ _ n none ty (coreBin_not_div hop),
+    selfGroup_eval env d op l hcl (Or.inl (coreBin_not_boolCtx hop)),
     selfGroup_eval env d op r hcr (Or.inl (coreBin_not_boolCtx hop))]
 
 theorem evalCoreList_map_selfGroup (env : String → Val) (d : Dialect) (op : Op) (hb : boolCtx op = false ∨ True) :
@@ -394,17 +447,19 @@ theorem foldVals_append (op : Op) (h : coreList op = true) (as bs : List Val)
       rw [foldl_binVal_assoc op h]
 
 /-- the operands taken over from a child that is itself a chain of `op` fold to its value -/
-theorem flattened_eval (env : String → Val) (d : Dialect) (op : Op) : ∀ l : SaExpr, operatorOf l = some op →
+theorem flattened_eval (env : String → Val) (d : Dialect) (op : Op) (hnd : coreDiv op = false) :
+    ∀ l : SaExpr, operatorOf l = some op →
     Core l = true → foldVals op (evalCoreList env d (flattened l)) = evalCore env d l
   | .binary op' a b n esc ty, ho, _ => by
     simp only [operatorOf, Option.some.injEq] at ho; subst ho
+    rw [evalCore_binary env d op' a b n esc ty hnd]
     rfl
   | .clist op' cs gr bl ty, ho, _ => by
     simp only [operatorOf, Option.some.injEq] at ho; subst ho
     rfl
   | .grouping e, ho, hc => by
     simp only [flattened]
-    exact flattened_eval env d op e (by simpa [operatorOf] using ho) (by simpa [Core] using hc)
+    exact flattened_eval env d op hnd e (by simpa [operatorOf] using ho) (by simpa [Core] using hc)
   | .unary op' e ty, ho, hc => by
     simp only [operatorOf, Option.some.injEq] at ho; subst ho
     simp only [flattened, evalCoreList, foldVals, List.foldl_nil]
@@ -447,10 +502,10 @@ theorem constructForOp_eval (env : String → Val) (d : Dialect) (l r : SaExpr) 
       · rw [evalCoreList_append, foldVals_append op hcL]
         · congr 1
           · split
-            · rename_i h1; exact flattened_eval env d op l h1.1 hcl
+            · rename_i h1; exact flattened_eval env d op (coreBin_not_div hop) l h1.1 hcl
             · rfl
           · split
-            · rename_i h1; exact flattened_eval env d op r h1.1 hcr
+            · rename_i h1; exact flattened_eval env d op (coreBin_not_div hop) r h1.1 hcr
             · rfl
         · apply evalCoreList_ne_nil
           split
@@ -548,8 +603,9 @@ theorem negate_eval (env : String → Val) (d : Dialect) (e : SaExpr) (h : BoolE
         simp only [Core, Bool.and_eq_true] at hc
         simp only [negate, negateInBinary_core r n op hc.2]
         refine ⟨?_, ?_⟩
-        · rw [mkBinary_eval env d l r n ty (some op) hsh hc.1.2 hc.2]
-          simp only [evalCore]
+        · simp only [Bool.and_eq_true] at hsh
+          rw [mkBinary_eval env d l r n ty (some op) hsh.2 hc.1.2 hc.2,
+            evalCore_binary env d op l r (some n) none ty (coreBin_not_div hsh.1)]
           exact hs.1 _ _
         · simp only [mkBinary, negSound]
           exact ⟨hs.2, hs.1⟩
@@ -689,7 +745,7 @@ theorem boolConstruct_multi_eval (env : String → Val) (d : Dialect) (operator 
     simp only [Function.comp]
     split
     · rename_i ho
-      rw [flattened_eval env d operator _ ho cy, selfGroup_eval env d operator x bx.core (Or.inr (hna x hx))]
+      rw [flattened_eval env d operator (coreList_not_div hcl) _ ho cy, selfGroup_eval env d operator x bx.core (Or.inr (hna x hx))]
     · simp only [evalCoreList, foldVals, List.foldl_nil]
       exact selfGroup_eval env d operator x bx.core (Or.inr (hna x hx))
   · cases cs with
@@ -961,19 +1017,35 @@ theorem build_num_eval (env : String → Val) (d : Dialect) : ∀ (u : U) (e : S
       cases hb' : build b with
       | none => simp [ha, hb'] at hb
       | some y =>
-        simp only [ha, hb', arithK_isArith k hu.1.1, if_true, Option.some.injEq] at hb
+        simp only [ha, hb', numK_isArith k hu.1.1, if_true, Option.some.injEq] at hb
         subst hb
         have nx := build_num a x hu.1.2 ha
         have ny := build_num b y hu.2 hb'
+        have ihx := build_num_eval env d a x hu.1.2 hn.1.2 ha
+        have ihy := build_num_eval env d b y hu.2 hn.2 hb'
         obtain ⟨h1, _⟩ := adapt_num k.op (tyOf x) (tyOf y) nx.ty
         unfold binaryOperate
         have e : adaptExpression k.op (tyOf x) (tyOf y) =
             (k.op, (adaptExpression k.op (tyOf x) (tyOf y)).2) := Prod.ext h1 rfl
         rw [e]
         simp only
-        rw [constructForOp_eval env d x y k.op _ none (arithK_coreBin k hu.1.1) nx.core nx.wg ny.core ny.wg,
-          build_num_eval env d a x hu.1.2 hn.1.2 ha, build_num_eval env d b y hu.2 hn.2 hb']
-        simp only [evalNumU]
+        rcases numK_cases hu.1.1 with hk | hk
+        · rw [constructForOp_eval env d x y k.op _ none (arithK_coreBin k hk) nx.core nx.wg ny.core ny.wg,
+            ihx, ihy]
+          cases k <;> simp [arithK] at hk <;> simp only [evalNumU]
+        · have hcd := divK_coreDiv k hk
+          have hbc := coreBinD_not_boolCtx (coreBinD_of_div hcd)
+          obtain ⟨he, _, _⟩ := constructForOp_div x y k.op (adaptExpression k.op (tyOf x) (tyOf y)).2 none
+            hcd nx.core nx.wg ny.core ny.wg
+          rw [he]
+          simp only [mkBinary]
+          rw [evalCore_div env d k.op _ _ none none _ hcd,
+            selfGroup_eval env d k.op x nx.core (Or.inl hbc),
+            selfGroup_eval env d k.op y ny.core (Or.inl hbc),
+            tyOf_selfGroup k.op x hbc, tyOf_selfGroup k.op y hbc, ihx, ihy]
+          have tx : tyU a = tyOf x := by simp [tyU, ha]
+          have ty' : tyU b = tyOf y := by simp [tyU, hb']
+          cases k <;> simp [divK] at hk <;> simp only [evalNumU, tx, ty', BinK.op]
   | .ls _, _, hu, _, _ => by simp [NumU] at hu
   | .lb _, _, hu, _, _ => by simp [NumU] at hu
   | .null, _, hu, _, _ => by simp [NumU] at hu
